@@ -57,6 +57,7 @@ func callMenu(v2 bool) []call {
 		{name: "ActivateNativeInterpreter", op: drv.Op{K: drv.KActivateNative}},
 		{name: "SetInterpreter", op: drv.Op{K: drv.KSetInterpreter}},
 		{name: "SetItemCollectionMetrics", op: drv.Op{K: drv.KSetICM}},
+		{name: "ActivateDebug", op: drv.Op{K: drv.KActivateDebug}},
 		{name: "TransactWriteItems", op: drv.Op{K: drv.KTransact}},
 	}
 	if v2 {
